@@ -15,7 +15,7 @@ static const size_t KiB = 1024, MiB = 1024 * 1024;
 struct ArenaArea { uintptr_t lo, hi; };
 static std::vector<ArenaArea> arena_areas() {
   std::vector<ArenaArea> v;
-  for (int id = 1; id < 130; id++) { size_t sz = 0; void* p = mi_arena_area((mi_arena_id_t)id, &sz); if (p == nullptr) break; ArenaArea a; a.lo = (uintptr_t)p; a.hi = a.lo + sz; v.push_back(a); }
+  for (int id = 1; id <= 200; id++) { size_t sz = 0; void* p = mi_arena_area((mi_arena_id_t)id, &sz); if (p == nullptr) break; ArenaArea a; a.lo = (uintptr_t)p; a.hi = a.lo + sz; v.push_back(a); }
   return v;
 }
 static bool in_arena(const std::vector<ArenaArea>& as, uintptr_t lo, uintptr_t hi) {
@@ -177,6 +177,7 @@ static void run_faults(State& S) {
 static std::vector<Measure> g_series;
 static uint64_t g_ledger_blocks = 0, g_ledger_threads = 0;
 
+static uint64_t g_ledger_reserve_ok = 0, g_ledger_reserve_refused = 0;
 static void ledger_round(State& S, int rep) {
   // the same demand in every repetition: a private PRNG seeded by the case seed only
   vf_rng_t r; vf_rng_seed(&r, S.cfg.seed * 7919 + 17);
@@ -244,6 +245,13 @@ static void ledger_round(State& S, int rep) {
       alloc_n(300, 16, 8192, false);
       for (uint8_t* p : hs) { if (p[0] != 0x51 || p[6 * MiB - 1] != 0x51) vf_trip("contents", "C01", "huge block %p changed", (void*)p); mi_free(p); }
       break; }
+    case 7: {                                                                          // explicit reservations beyond the capacity of the arena table: the refused ones must leave nothing behind
+      int ok = 0, refused = 0;
+      for (int i = 0; i < 150; i++) { if (mi_reserve_os_memory(32 * MiB, false /* commit */, false /* large */) == 0) ok++; else refused++; }
+      g_ledger_reserve_ok += (uint64_t)ok; g_ledger_reserve_refused += (uint64_t)refused;
+      vf_err_reset();                                                                   // (each refusal is reported as a warning / ENOMEM)
+      alloc_n(300, 16, 8192, false);
+      break; }
     default: break;
   }
   S.sm.verify_all("ledger round");
@@ -254,7 +262,8 @@ static void ledger_round(State& S, int rep) {
 }
 
 static void ledger_print(FILE* f) {
-  fprintf(f, ",\"ledger\":{\"blocks\":%llu,\"threads\":%llu,\"series\":[", (unsigned long long)g_ledger_blocks, (unsigned long long)g_ledger_threads);
+  fprintf(f, ",\"ledger\":{\"blocks\":%llu,\"threads\":%llu,\"reservations_granted\":%llu,\"reservations_refused\":%llu,\"series\":[", (unsigned long long)g_ledger_blocks, (unsigned long long)g_ledger_threads,
+          (unsigned long long)g_ledger_reserve_ok, (unsigned long long)g_ledger_reserve_refused);
   for (size_t i = 0; i < g_series.size(); i++) {
     const Measure& m = g_series[i];
     fprintf(f, "%s{\"arena_inuse\":%ld,\"mapped\":%zu,\"nonarena\":%zu,\"big_nonarena\":%zu,\"small_regions\":%zu,\"resident\":%zu,\"arena_resident\":%zu}", i ? "," : "", m.arena_inuse, m.mapped, m.mapped_nonarena, m.big_nonarena, m.small_regions, m.resident, m.arena_resident);
